@@ -28,7 +28,9 @@ THEOREMS = ["C07_policy_domain_complete", "C07_policy_model_meets_spec", "C07_po
             "C07_policy_returned_rate", "C07_policy_wavelength", "C07_policy_isotope_wavelength", "C07_history_independent",
             "C07_rate2_node_partial", "C07_rate3_node_partial", "C07_beam_node_partial",
             "C07_beam_at_reference_partial", "C07_beam_cx_node_partial", "C07_nonneg", "C07_guard_zero",
-            "C07_range_policy", "C07_exec_instance_lawful", "C07_checked_axis_is_axis"]
+            "C07_range_policy", "C07_exec_instance_lawful", "C07_checked_axis_is_axis",
+            "C07_cubic1d_through_knots", "C07_cubic1d_fast_evaluator", "C07_oracle_laws_from_cubic1d", "C07_beam_cx_node_cubic",
+            "C07_beam_node_single_axis_cubic", "C07_log_laws_satisfiable", "C07_null_zero_everywhere"]
 
 NODE_REL = 2.0 ** -30          # the Coq comparator's tolerance (Model/C07_Check.v: tol)
 WL_ISO, WL_EL = 400.0, 500.0   # wavelengths stored by the policy probe
@@ -617,6 +619,12 @@ def gen_points(rng, family, data, max_nodes, pe=False):
                 return x
     for _ in range(4):
         pts.append(("inside", [inside(a) for a in axes]))
+    if family == "cx":
+        # energy on its axis, the four linear-space arguments anywhere inside: compared with the exact cubic model
+        for _ in range(4):
+            args = [inside(a) for a in axes]
+            args[0] = axes[0][rng.randrange(len(axes[0]))]
+            pts.append(("inside-linear", args))
     for g in I.guarded_args(family):
         for bad in (0.0, -abs(axes[g][0]) * rng.uniform(0.1, 3.0)):
             args = node_args() if rng.random() < 0.7 else [inside(a) for a in axes]
@@ -808,6 +816,19 @@ def run_sequence(spec, scratch, tag):
                              data=canon(I.scaled(acc.family, cur["data"], f)))
                 out.append((sub, fetch(acc, adas, sub)))
     if "seq" in spec:
+        # missing data on a provider that was asked for null rates: the object returned for a charge / transition /
+        # metastable that is not stored must be zero at every kind of argument
+        sub = sub_of({"what": "missing-data-null", "points": step_points(spec, 6, ("node", "inside", "guard", "outside", "far-outside", "ulp-inside"))},
+                     is_null=True)
+        adas_null = I.make_adas(repo, spec["pe"], True, spec["fb"], form=(spec.get("adas_form", 0) + 1) % 4)
+        try:
+            obj = I.call(acc, adas_null, I.species(acc, 1, sub["k1"]), I.species(acc, 2, sub["k2"]), variant=1)
+        except Exception as e:   # judged below: a null rate was asked for
+            out.append((sub, {"construct": ("raise", I.err_name(e), "%s: %s" % (type(e).__name__, str(e)[:160])), "outs": []}))
+        else:
+            rate = obj[0] if isinstance(obj, list) and len(obj) == 1 else obj
+            out.append((sub, {"construct": ("ok",) if not isinstance(rate, list) else ("bad", "list of %d" % len(rate)),
+                              "outs": [] if isinstance(rate, list) else evaluate_all(rate, sub)}))
         # the rate class constructed directly (not through the provider), extrapolate by keyword / position / default
         sub = sub_of({"what": "direct-construction", "points": step_points(spec, 4, ("node", "outside", "guard"))})
         lam = spec_wavelength(acc, sub)
@@ -1002,6 +1023,26 @@ def run(ctx):
     pol = policy_tie(ctx, rows) or {}
     ctx.log("policy tie: %s" % {k: pol.get(k) for k in ("domain", "differ_from_model", "excluded_known", "checked_by_lemma")})
 
+    # ---- (S) the model's static tables against the source text (ast translator, fail-closed) ------------------
+    import c07_translate
+    rows_txt, wl_ok, src_details = c07_translate.translate(os.path.join(REPO, "cherab", "openadas", "openadas.py"),
+                                                           [(a.name, a.coq) for a in I.ACCS])
+    src_v = ("Require Import Cherab.Common.Qx Cherab.Model.C07_Policy.\nDefinition src_rows : list srcrow :=\n  %s.\n"
+             "Eval vm_compute in (failing (map src_row_ok src_rows)).\n"
+             "Lemma source_ok : src_ok %s src_rows = true.\nProof. vm_compute. reflexivity. Qed.\n"
+             % (rows_txt, "true" if wl_ok else "false"))
+    oks, outs = coqc(ctx.write_gen("Source.v", src_v), timeout=600)
+    ctx.obligation("Gen/C07/Source.v source_ok: openadas.py (ast) agrees with the model's accessor tables -- species reduced to "
+                   "elements for the repository, try/except RuntimeError with null-or-re-raise, which species reaches "
+                   "self.wavelength, extrapolate=self._permit_extrapolation, wavelength() fallback structure; no unmodelled method",
+                   "tie", oks, outs[-1500:] + " | " + json.dumps({k: v for k, v in src_details.items()
+                                                                    if (isinstance(v, dict) and v["unknown"]) or (k == "unmodelled_methods" and v)}, default=str))
+    if not oks:
+        bad_src = {k: v for k, v in src_details.items() if isinstance(v, dict)}
+        ctx.violation("c07:source:openadas.py", "the text of cherab/openadas/openadas.py no longer has the structure the policy model "
+                      "is written from (statements not recognised, or a table entry differs); see the policy / history rows for a failing call",
+                      {"rows": rows_txt, "wavelength_method_ok": wl_ok, "details": bad_src}, found=False)
+
     # ---- (T') histories on long-lived providers ---------------------------------------------------------
     hs = run_histories(ctx, scratch, cf, quick)
     hist_cov = histories_tie(ctx, hs) or {}
@@ -1019,7 +1060,7 @@ def run(ctx):
     n_obj = 156 if quick else 2080
     for k in range(n_obj):
         acc = rate_accs[k % len(rate_accs)]
-        s = gen_object(rng, acc, k // len(rate_accs), max_nodes=30 if quick else 60)
+        s = gen_object(rng, acc, k // len(rate_accs), max_nodes=18 if quick else 60)
         s["origin"] = "generated #%d" % k
         specs.append(s)
 
@@ -1054,6 +1095,23 @@ def run(ctx):
             sk = "%s/%s" % (s["k1"], s["k2"])
             dist["species"][sk] = dist["species"].get(sk, 0) + 1
             lam = spec_wavelength(acc, s)
+            if s.get("is_null"):
+                if res["construct"][0] != "ok":
+                    findings.setdefault("c07:%s:null-missing" % s["acc"],
+                                        ("missing data with missing_rates_return_null=True did not give a rate: %s" % (res["construct"],),
+                                         {"object": _replay_obj(s), "construct": res["construct"]}))
+                    continue
+                for pi, ((cls, args), out) in enumerate(zip(s["points"], res["outs"])):
+                    n_eval += 1
+                    dist["point_classes"]["null:" + cls] = dist["point_classes"].get("null:" + cls, 0) + 1
+                    key = None
+                    if out != ("val", 0.0):
+                        key = "c07:%s:null-not-zero" % s["acc"]
+                        findings.setdefault(key, ("the null rate returned for missing data is not zero at %r: %s" % (args, out),
+                                                  {"object": _replay_obj(s), "args": [float(a).hex() for a in args], "observed": out}))
+                    pt_lines.append("ptnull_at [%s] %s" % ("; ".join(q(a) for a in args), coq_out(out)))
+                    pt_meta.append((si, pi, key))
+                continue
             jc = judge_construct(s, res)
             if jc:
                 dist["construct_failures"] += 1
@@ -1085,7 +1143,8 @@ def run(ctx):
                                                       "args_decimal": args, "observed": out,
                                                       "sequence_on_one_provider": s0.get("seq"),
                                                       "impl_wavelength": res.get("impl_wavelength")}))
-                pt_lines.append("%s %s %s %s" % (pt, name, " ".join(q(a) for a in args), coq_out(out)))
+                ptf = "ptcx_cubic" if (cls == "inside-linear" and s["family"] == "cx" and not v) else pt
+                pt_lines.append("%s %s %s %s" % (ptf, name, " ".join(q(a) for a in args), coq_out(out)))
                 pt_meta.append((si, pi, v[0] if v else None))
             maxrel = max(maxrel, s.get("_maxrel", 0.0))
     n_seq = len(specs)
@@ -1205,9 +1264,16 @@ def run(ctx):
                              max_relative_error_at_grid_points=maxrel),
         "tolerance": {"grid point": "relative 2^-30 inside Coq (1e-9 in the executable property); measured max %.2e" % maxrel,
                       "guard": "exactly 0", "policy outcomes / exception kinds": "exact",
+                      "null rate": "exactly 0 at every probed argument (ptnull_at)",
+                      "BeamCXPEC strictly inside the t / n / Zeff / B ranges, energy on its axis": "exact rational cubic model (cubic1_r) "
+                      "vs implementation, relative 2^-30, inside Coq",
+                      "one ulp outside the range": "ambiguous, not compared exactly (only: raises or finite >= 0), counted",
+                      "source structure (openadas.py, ast)": "exact, kernel-checked lemma source_ok",
                       "conversion factor": "relative 2^-40 of the exact SI value"},
-        "partial": ["node theorems (C07_*_node_partial) assume oracle_laws: interpolant passes through knots, 10**log10 v = v; "
-                    "checked numerically at every generated grid point, not proved for raysect/libm",
+        "partial": ["node theorems (C07_*_node_partial) assume oracle_laws; of these the 1-D through-knots laws are now theorems about the "
+                    "Gallina model of raysect's cubic (C07_cubic1d_through_knots, C07_oracle_laws_from_cubic1d); still assumed: the 2-D / 3-D "
+                    "interpolators pass through their knots and the log10 / 10** laws of libm -- checked numerically at every generated grid "
+                    "point, not proved",
                     "finiteness of extrapolated doubles is checked on the implementation only",
                     "the policy theorems hold for the cases of all_cases minus the rows excluded under known findings "
                     "(%d of %d)" % (pol.get("excluded_known", 0), pol.get("domain", 0))],
